@@ -4,6 +4,7 @@ import (
 	"fmt"
 	"go/ast"
 	"go/constant"
+	"go/token"
 	"go/types"
 	"strings"
 )
@@ -200,6 +201,21 @@ func (c *fnCtx) call2(x *ast.CallExpr, e *env) (Val, bool, error) {
 		}
 		return Val{S: fmt.Sprintf("(app %s %s)", atom(sv.S), tail), K: sv.K, Alias: sv.Alias}, true, nil
 
+	case builtin("make") && len(x.Args) >= 1 && c.isSetType(x.Args[0]):
+		k, err := c.kindOf(c.file, x.Args[0])
+		if err != nil {
+			return Val{}, true, err
+		}
+		if len(x.Args) > 2 {
+			return Val{}, true, c.err(x, "make of a map with %d arguments", len(x.Args))
+		}
+		if len(x.Args) == 2 { // the size hint has no effect on values
+			if _, err := c.expr(x.Args[1], e); err != nil {
+				return Val{}, true, err
+			}
+		}
+		return Val{S: "nil", K: k}, true, nil
+
 	case builtin("make") && (len(x.Args) == 2 || len(x.Args) == 3):
 		k, err := c.kindOf(c.file, x.Args[0])
 		if err != nil {
@@ -302,4 +318,319 @@ func (c *fnCtx) call2(x *ast.CallExpr, e *env) (Val, bool, error) {
 		}
 	}
 	return Val{}, false, nil
+}
+
+func (c *fnCtx) isSetType(x ast.Expr) bool {
+	if _, ok := x.(*ast.MapType); ok {
+		return true
+	}
+	if id, ok := x.(*ast.Ident); ok {
+		if ts, ok := c.pkg.Types[id.Name]; ok {
+			_, isMap := ts.Type.(*ast.MapType)
+			return isMap
+		}
+	}
+	return false
+}
+
+// detectEffect: a parameter (or receiver) of a native set kind that the body inserts into.
+func (c *fnCtx) detectEffect(e *env) {
+	idx := 0
+	var names []string
+	if c.decl.Recv != nil && len(c.decl.Recv.List) == 1 && len(c.decl.Recv.List[0].Names) == 1 {
+		names = append(names, c.decl.Recv.List[0].Names[0].Name)
+	} else if c.decl.Recv != nil {
+		names = append(names, "")
+	}
+	for _, fl := range c.decl.Type.Params.List {
+		for _, n := range fl.Names {
+			names = append(names, n.Name)
+		}
+	}
+	for i, n := range names {
+		v, _, ok := e.lookup(n)
+		if n == "" || !ok || v.kind.Base != "set" || !v.kind.Native {
+			continue
+		}
+		written := false
+		ast.Inspect(c.decl.Body, func(nd ast.Node) bool {
+			if as, ok := nd.(*ast.AssignStmt); ok {
+				for _, l := range as.Lhs {
+					if ix, ok := l.(*ast.IndexExpr); ok && selPath(ix.X) == n {
+						written = true
+					}
+				}
+			}
+			return !written
+		})
+		if written && c.effectVar == "" {
+			c.effectVar, c.effectIdx = n, i
+			idx = i
+		}
+	}
+	_ = idx
+}
+
+// effectCond: an if-condition of the form  x.m(args)  or  !x.m(args)  where m inserts into the local set x
+// (a method of x's named map type, or a function of the package taking x).  The call is bound in front of the if:
+// let '(b, x') := gen_m x args in if b ...
+func (c *fnCtx) effectCond(cond ast.Expr, e *env) (string, Val, bool, error) {
+	neg := false
+	x := cond
+	for {
+		if p, ok := x.(*ast.ParenExpr); ok {
+			x = p.X
+			continue
+		}
+		if u, ok := x.(*ast.UnaryExpr); ok && u.Op == token.NOT {
+			neg = !neg
+			x = u.X
+			continue
+		}
+		break
+	}
+	call, ok := x.(*ast.CallExpr)
+	if !ok {
+		return "", Val{}, false, nil
+	}
+	sel, ok := call.Fun.(*ast.SelectorExpr)
+	if !ok {
+		return "", Val{}, false, nil
+	}
+	id, ok := sel.X.(*ast.Ident)
+	if !ok {
+		return "", Val{}, false, nil
+	}
+	v, _, ok := e.lookup(id.Name)
+	if !ok || v.kind.Base != "set" || v.kind.Named == nil {
+		return "", Val{}, false, nil
+	}
+	d, ok := v.kind.Named.Pkg.Funcs[v.kind.Named.Name+"."+sel.Sel.Name]
+	if !ok {
+		return "", Val{}, false, nil
+	}
+	sig, err := c.tr.translateFunc(v.kind.Named.Pkg, d, "", c.spec, true)
+	if err != nil {
+		return "", Val{}, false, err
+	}
+	if !sig.effect || sig.effectArg != 0 {
+		return "", Val{}, false, nil
+	}
+	if (v.param && id.Name != c.effectVar) || v.shared {
+		return "", Val{}, false, c.err(call, "call of %s, which inserts into %s, a set the caller or another variable may share", sel.Sel.Name, id.Name)
+	}
+	if sig.plain.Base != "bool" {
+		return "", Val{}, false, c.err(call, "condition of kind %s", sig.plain.Base)
+	}
+	recv := Val{S: v.coq, K: v.kind}
+	head, as, err := c.calleeArgs(sig, d, &recv, call, e)
+	if err != nil {
+		return "", Val{}, false, err
+	}
+	pre := c.takePre()
+	bn, sn := c.fresh("hit"), c.fresh(id.Name)
+	v.coq = sn
+	e.set(id.Name, v)
+	text := fmt.Sprintf("%slet '(%s, %s) := (%s%s%s) in\n  ", pre, bn, sn, sig.name, head, as)
+	cv := Val{S: bn, K: Kind{Base: "bool"}}
+	if neg {
+		cv.S = "(negb " + bn + ")"
+	}
+	return text, cv, true, nil
+}
+
+// assignMulti: `a, b := <one expression with several values>`: a membership test on a map used as a set
+// (`_, ok := m[k]`), or the call of a translated function with several plain results.
+func (c *fnCtx) assignMulti(s *ast.AssignStmt, e *env, rest cont) (string, error) {
+	if len(s.Rhs) != 1 || (s.Tok != token.DEFINE && s.Tok != token.ASSIGN) {
+		return "", c.err(s, "assignment from a multi-valued expression")
+	}
+	names := make([]*ast.Ident, len(s.Lhs))
+	for i, l := range s.Lhs {
+		id, ok := l.(*ast.Ident)
+		if !ok {
+			return "", c.err(l, "assignment target %T", l)
+		}
+		names[i] = id
+	}
+	// declare / assign the Go variable id with the Gallina name cn of kind k
+	put := func(id *ast.Ident, cn string, k Kind) error {
+		if id.Name == "_" {
+			return nil
+		}
+		if s.Tok == token.DEFINE {
+			if _, ok := e.scopes[len(e.scopes)-1][id.Name]; !ok {
+				e.declare(id.Name, varInfo{coq: cn, kind: k})
+				return nil
+			}
+		}
+		old, _, ok := e.lookup(id.Name)
+		if !ok || !sameKind(old.kind, k) {
+			return c.err(id, "assignment to %s of a value of kind %s", id.Name, k)
+		}
+		if old.mutRcv {
+			return c.err(id, "re-assignment of the pointer receiver itself")
+		}
+		e.set(id.Name, varInfo{coq: cn, kind: k, param: old.param})
+		return nil
+	}
+	switch r := s.Rhs[0].(type) {
+	case *ast.IndexExpr:
+		sv, err := c.expr(r.X, e)
+		if err != nil {
+			return "", err
+		}
+		if sv.K.Base != "set" || !sv.K.Native || len(names) != 2 {
+			return "", c.err(s, "two-valued index expression on something that is not a map used as a set")
+		}
+		if names[0].Name != "_" {
+			return "", c.err(names[0], "value read from a map used as a set")
+		}
+		c.noMut++
+		kv, err := c.exprKind(r.Index, e, *sv.K.Elem)
+		c.noMut--
+		if err != nil {
+			return "", err
+		}
+		pre := c.takePre()
+		cn := "_"
+		if names[1].Name != "_" {
+			cn = c.fresh(names[1].Name)
+		}
+		if err := put(names[1], cn, Kind{Base: "bool"}); err != nil {
+			return "", err
+		}
+		rs, err := rest(e)
+		if err != nil {
+			return "", err
+		}
+		return fmt.Sprintf("%slet %s := (memN %s %s) in\n  %s", pre, cn, atom(kv.S), atom(sv.S), rs), nil
+
+	case *ast.CallExpr:
+		id, ok := r.Fun.(*ast.Ident)
+		if !ok {
+			return "", c.err(s, "assignment from a multi-valued expression")
+		}
+		if _, _, isVar := e.lookup(id.Name); isVar {
+			return "", c.err(s, "call of a function value")
+		}
+		d, ok := c.pkg.Funcs[id.Name]
+		if !ok {
+			return "", c.err(s, "call of %s (not a function of package %s)", id.Name, c.pkg.Name)
+		}
+		sig, err := c.tr.translateFunc(c.pkg, d, "", c.spec, true)
+		if err != nil {
+			return "", err
+		}
+		if sig.result.Base != "tuple" || sig.wrap || len(sig.result.Elems) != len(names) {
+			return "", c.err(s, "call of %s in a %d-valued assignment", id.Name, len(names))
+		}
+		_, as, err := c.calleeArgs(sig, d, nil, r, e)
+		if err != nil {
+			return "", err
+		}
+		pre := c.takePre()
+		var pats []string
+		for i, n := range names {
+			cn := "_"
+			if n.Name != "_" {
+				cn = c.fresh(n.Name)
+			}
+			pats = append(pats, cn)
+			if err := put(n, cn, sig.result.Elems[i]); err != nil {
+				return "", err
+			}
+		}
+		rs, err := rest(e)
+		if err != nil {
+			return "", err
+		}
+		return fmt.Sprintf("%slet '(%s) := (%s%s) in\n  %s", pre, strings.Join(pats, ", "), sig.name, as, rs), nil
+	}
+	return "", c.err(s, "assignment from a multi-valued expression")
+}
+
+// pkgVar: a package-level `var x = <big.Int expression>` that nothing in the package assigns, takes the address of,
+// or stores into: a constant.  Its initialiser is translated once into `gen_var_<pkg>_<x>`.
+func (c *fnCtx) pkgVar(p *Pkg, name string, at ast.Node) (Val, bool, error) {
+	var init ast.Expr
+	var file *ast.File
+	var pos token.Pos
+	for _, f := range p.Files {
+		for _, d := range f.Decls {
+			gd, ok := d.(*ast.GenDecl)
+			if !ok || gd.Tok != token.VAR {
+				continue
+			}
+			for _, sp := range gd.Specs {
+				vs := sp.(*ast.ValueSpec)
+				for i, n := range vs.Names {
+					if n.Name == name {
+						if len(vs.Values) != len(vs.Names) {
+							return Val{}, true, c.err(at, "package-level variable %s without its own initialiser", name)
+						}
+						init, file, pos = vs.Values[i], f, n.Pos()
+					}
+				}
+			}
+		}
+	}
+	if init == nil {
+		return Val{}, false, nil
+	}
+	// read-only?  (names are compared without scope analysis: a local variable of the same name that is assigned
+	// somewhere in the package makes this refuse, which is the safe side)
+	why := ""
+	for _, f := range p.Files {
+		ast.Inspect(f, func(n ast.Node) bool {
+			switch n := n.(type) {
+			case *ast.AssignStmt:
+				if n.Tok != token.DEFINE {
+					for _, l := range n.Lhs {
+						if selPath(l) == name {
+							why = "is assigned"
+						}
+					}
+				}
+			case *ast.IncDecStmt:
+				if selPath(n.X) == name {
+					why = "is assigned"
+				}
+			case *ast.UnaryExpr:
+				if n.Op == token.AND && selPath(n.X) == name {
+					why = "has its address taken"
+				}
+			case *ast.CallExpr:
+				if sel, ok := n.Fun.(*ast.SelectorExpr); ok && selPath(sel.X) == name {
+					switch sel.Sel.Name {
+					case "Cmp", "CmpAbs", "Sign", "BitLen", "Bit", "String", "Int64", "Uint64", "IsInt64", "IsUint64", "Text", "Bytes":
+					default:
+						why = "is the receiver of " + sel.Sel.Name
+					}
+				}
+			}
+			return why == ""
+		})
+	}
+	if why != "" {
+		return Val{}, true, c.err(at, "package-level variable %s %s somewhere in the package (only read-only ones are read as constants)", name, why)
+	}
+	cn := "gen_var_" + p.Name + "_" + sanitize(name)
+	if !c.tr.constDone[cn] {
+		sub := &fnCtx{tr: c.tr, pkg: p, file: file, spec: c.spec, used: map[string]int{}, tparams: map[string]bool{},
+			hoisted: map[ast.Expr]Val{}, sig: &fnSig{}, name: cn}
+		ev := &env{}
+		ev.push()
+		v, err := sub.expr(init, ev)
+		if err != nil {
+			return Val{}, true, err
+		}
+		if v.K.Base != "big" || v.Alias != "" || len(sub.pre) > 0 {
+			return Val{}, true, c.err(at, "package-level variable %s is not initialised by a fresh *big.Int expression", name)
+		}
+		c.tr.constDone[cn] = true
+		c.tr.emitDef(cn, fmt.Sprintf("(* %s:%d package-level variable, never assigned *)\nDefinition %s : Z := %s.",
+			p.Fset.Position(pos).Filename, p.Fset.Position(pos).Line, cn, v.S))
+	}
+	return Val{S: cn, K: Kind{Base: "big"}, Alias: "\x00pkgvar:" + name}, true, nil
 }
